@@ -40,7 +40,8 @@ def fmtCtx : ElaVerif.PolicyCtx.Res → String
   | .fz (.receive i) => s!"fz receive {i}"
 
 def stepCtx : List String → Option String
-  | ["ctx", ty, ver, h, f, r, es, ins, outs] =>
+  | [op, ty, ver, h, f, r, es, ins, outs] =>
+      if op ≠ "ctx" ∧ op ≠ "ctxpow" then none else
       match Driver.nat? ty, Driver.nat? ver, Driver.nat? h, Driver.nat? f, Driver.nat? r,
             (if es = "-" then some [] else (es.splitOn ",").mapM ctxEntry?) with
       | some ty, some ver, some h, some f, some r, some es =>
@@ -53,7 +54,7 @@ def stepCtx : List String → Option String
             (if es = "-" then some [] else (es.splitOn ",").mapM ctxEntry?) with
       | some h, some f, some r, some es =>
           let res := ElaVerif.PolicyCtx.contextPolicies 2 0 h f r es (ctxLetters ins) (ctxLetters outs)
-          if path = "block" then
+          if path = "block" ∨ path = "seen" ∨ path = "reorg" then
             some (if res = .passed then "passed" else "rejected")
           else some (fmtCtx res)
       | _, _, _, _ => some "bad-op"
